@@ -1,7 +1,8 @@
 from common import T_COMMON
 
 CFG = dict(
-    theorems=["lexicographic_misorders"],
+    theorems=["edit_history_wf", "decode_encode", "norm_same", "encode_idempotent", "encode_nodes_perm", "sorted_unique", "lexicographic_misorders"],
+    modules=["PolyVerif.Props.C12"],
     streams=[dict(name="c12", n=dict(quick=150, thorough=4000)),
              dict(name="c12file", n=dict(quick=20, thorough=400))],
     trusted=T_COMMON + [],
